@@ -12,11 +12,68 @@
     ~25 token handlers the table handlers are modelled (Model/Tables.v, tied
     to the parser by C03's check): for them the table clause of
     well-formedness is an invariant proved for every token sequence.  The
-    other handlers and the regex tokenizer are not modelled. *)
+    other handlers and the regex tokenizer are not modelled.
+    What is proved about the parser as a whole (Model/Stack.v,
+    Proofs/StackProofs.v): the primitive operations through which every
+    handler acts on the open-node stack - _parser_push, _parser_pop with its
+    fix-ups, _parser_merge_str_children, and the eight direct changes handlers
+    make to the node on top - keep, for EVERY sequence of operations (that is,
+    whatever the handlers and the tokenizer decide), the clauses 'strings',
+    'root', the argument shape of LINK/TEMPLATE/TEMPLATE_ARG/PARSER_FN/URL, 'no
+    largs on other kinds' and 'definition only on list items' of
+    well-formedness, at every depth; and the closing loop of parse_encoded ends
+    with only the root open.  The model is tied to parser.py by recording the
+    operations of real runs (sys.settrace on every line of parser.py) and
+    replaying them inside Coq: the replayed tree must be the returned tree. *)
 From Coq Require Import List Bool.
 Import ListNotations.
 From WTP Require Import Model.Tree Proofs.TreeProofs.
 From WTP Require Model.Tables Proofs.TablesInvProofs.
+From WTP Require Model.Stack Proofs.StackProofs.
+From Coq Require Import NArith.
+
+(* Whatever the token handlers do: every tree that any sequence of the parser's primitive stack operations can
+   produce, followed by parse_encoded's closing loop (pop until only the root is open; [flags] are the two facts each
+   of those pops reads from fields outside the model), is well-formed in the sense of StackProofs.GoodRoot/Good: the
+   root is the only ROOT node; no child list, argument, definition or list-item head, at any depth, holds an empty
+   string, two strings in a row or a placeholder character; argument-bearing kinds have at least one argument and no
+   children (LINK: only its trail); other kinds except headings have no arguments; only list items have a
+   definition.  And the loop does end with exactly the root open ("no open-node state is left behind").
+   [fin] is Wtp._finalize_expand; the hypothesis on it is false exactly for the inputs of the known findings
+   c01:*:placeholder-in-input (a placeholder character in the page text itself). *)
+Theorem c01_any_handler_behaviour_gives_a_well_formed_tree :
+  forall (fin : Stack.text -> Stack.text) (magic : BinNums.N -> bool),
+    (forall s, existsb magic (fin s) = false) ->
+  forall title ops st flags, Stack.clean magic title = true ->
+    Stack.run fin magic (Stack.init title) ops = Some st -> (length st <= S (length flags))%nat ->
+    exists f t, Stack.finale fin magic flags st = Some [f] /\ Stack.result fin [f] = Some t /\
+                StackProofs.GoodRoot magic t.
+Proof. exact StackProofs.parse_returns_a_good_tree_and_leaves_only_the_root. Qed.
+Print Assumptions c01_any_handler_behaviour_gives_a_well_formed_tree.
+
+(* the invariant, operation by operation *)
+Theorem c01_every_primitive_operation_keeps_the_stack_well_formed :
+  forall (fin : Stack.text -> Stack.text) (magic : BinNums.N -> bool),
+    (forall s, existsb magic (fin s) = false) ->
+  forall st o st', StackProofs.Inv magic st -> Stack.step fin magic st o = Some st' -> StackProofs.Inv magic st'.
+Proof. exact StackProofs.step_Inv. Qed.
+Print Assumptions c01_every_primitive_operation_keeps_the_stack_well_formed.
+
+(* the premises are met by a real run: "[[c|d]]s {{lc:A}} ''" as the parser performs it *)
+Example c01_a_recorded_run :
+  let fin := Stack.fin_of [] in
+  let ops := [Stack.OPush LINK; Stack.OText [99%N]; Stack.OMerge; Stack.OToLargs false; Stack.OText [100%N];
+              Stack.OPop false false false; Stack.OTrail [115%N]; Stack.OText [32%N]; Stack.OPush TEMPLATE;
+              Stack.OText [108%N; 99%N]; Stack.OMerge; Stack.OToLargs true; Stack.OText [65%N]; Stack.OPop false false false;
+              Stack.OText [32%N]; Stack.OPush ITALIC] in
+  exists st, Stack.run fin Stack.magic_range (Stack.init [84%N]) ops = Some st /\ length st = 2%nat /\
+             Stack.finale fin Stack.magic_range [(false, false)] st
+             = Some [Stack.mkframe ROOT [[Stack.IStr [84%N]]]
+                       [Stack.INode (Stack.Nd LINK [[Stack.IStr [99%N]]; [Stack.IStr [100%N]]] [Stack.IStr [115%N]] None None);
+                        Stack.IStr [32%N];
+                        Stack.INode (Stack.Nd PARSER_FN [[Stack.IStr [108%N; 99%N]]; [Stack.IStr [65%N]]] [] None None);
+                        Stack.IStr [32%N]] None].
+Proof. eexists. split; [vm_compute; reflexivity | split; vm_compute; reflexivity]. Qed.
 
 (* The table clause of well-formedness, for EVERY sequence of table tokens and text in any order (malformed ones
    included: cells outside rows, captions after rows, ends without starts, ...): whenever the table handlers, as
@@ -70,12 +127,12 @@ Print Assumptions c01_merge_keeps_text.
 From WTP Require Import Gen.GenPins.
 Module Pins.
 Import String.
-(* The models of this property were transcribed from: parser.py:_parser_merge_str_children.
+(* The models of this property were transcribed from: parser.py:_parser_merge_str_children, parser.py:_parser_push, parser.py:_parser_pop, parser.py:parse_encoded.
    Gen/GenPins.v holds the digests of these functions in the current source (translate/pins.py: syntax tree without
    docstrings, comments and layout).  A different digest means that the model is no longer known to describe the
    code; the check then reports the broken tie and looks for a failing input. *)
 Theorem c01_models_describe_the_current_source :
-  pin_merge_str_children = "1df751192f3d260a"%string.
+  (pin_merge_str_children, pin_parser_push, pin_parser_pop, pin_parse_encoded) = ("1df751192f3d260a", "4134258ce540755b", "de4891a2de6127c6", "7f89b6f3e4611a82")%string.
 Proof. reflexivity. Qed.
 Print Assumptions c01_models_describe_the_current_source.
 End Pins.
